@@ -254,11 +254,26 @@ func c04(c *Ctx) {
 					get = x
 				}
 			}
-			var app ssa.CallInstruction
+			// the append that walks rsp.Get…() (inside a nested loop) and the append
+			// that accumulates across steps; they are one and the same unless the
+			// conversion was moved into a helper that builds a local slice first
+			var app, acc ssa.CallInstruction
 			for _, ap := range calls(fc, "builtin.append") {
-				if strings.HasSuffix(ap.Common().Args[0].Type().String(), k.elem) && loop[ap.Block()] {
+				if !strings.HasSuffix(ap.Common().Args[0].Type().String(), k.elem) || !loop[ap.Block()] {
+					continue
+				}
+				if l := cfgx.LoopOf(ap.Block()); l != nil && len(l) < len(loop) {
 					app = ap
 				}
+				if phi, ok := ap.Common().Args[0].(*ssa.Phi); ok && phi.Block() == hdr {
+					acc = ap
+				}
+			}
+			if acc == nil {
+				acc = app
+			}
+			if app == nil {
+				app = acc
 			}
 			if get == nil || app == nil {
 				c.R.Bad(load.FuncName(fc)+": "+k.getter, c.pos(run.Pos()), "rsp."+k.getter+"() is not ranged over / appended")
@@ -273,10 +288,16 @@ func c04(c *Ctx) {
 			c.R.Check(okInner && !by, site(app)+" every-"+k.field, c.pos(app.Pos()), "every element of rsp."+k.getter+"() is appended (an iteration either appends or returns)", "an element of rsp."+k.getter+"() can be skipped", w...)
 			// appended to the carried slice, element derived from the range element
 			carried := false
-			if phi, ok := app.Common().Args[0].(*ssa.Phi); ok {
+			if phi, ok := acc.Common().Args[0].(*ssa.Phi); ok {
 				carried = loop[phi.Block()]
 			}
-			c.R.Check(carried, site(app)+" accumulates", c.pos(app.Pos()), "appends to the slice carried across steps (pipeline order)", "the slice appended to is not the one carried across steps")
+			if acc != app {
+				// the locally built slice is what is appended to the carried one, whole
+				whole := len(acc.Common().Args) == 2 && flow.Strict.Any(acc.Common().Args[1], func(v ssa.Value) bool { return v == app.Value() })
+				carried = carried && whole && cfgx.InstrReaches(app, acc, nil)
+			}
+			c.R.Check(carried, site(acc)+" accumulates", c.pos(acc.Pos()), "appends to the slice carried across steps (pipeline order)", "the slice appended to is not the one carried across steps")
+			app = acc
 			// returned on every return reachable after the loop started that carries a result
 			for _, b := range fc.Blocks {
 				r, ok := b.Instrs[len(b.Instrs)-1].(*ssa.Return)
@@ -413,12 +434,12 @@ func c04(c *Ctx) {
 		var eqTrue []cfgx.Edge
 		for _, b := range gc.Blocks {
 			for _, in := range b.Instrs {
-				if bo, ok := in.(*ssa.BinOp); ok && bo.Op == token.EQL {
+				if bo, ok := in.(*ssa.BinOp); ok && isEqOrNeq(bo) {
 					t1 := hasSuffixCall(bo.X, "grpc.ClientConn).Target") || hasSuffixCall(bo.Y, "grpc.ClientConn).Target")
 					_, p1, _ := flow.AccessPathC(bo.Y)
 					_, p2, _ := flow.AccessPathC(bo.X)
 					if t1 && (strings.HasSuffix(p1, "Status.Endpoint") || strings.HasSuffix(p2, "Status.Endpoint")) {
-						t, _ := cfgx.CondEdges(bo)
+						t, _ := eqEdges(bo)
 						eqTrue = append(eqTrue, t...)
 					}
 				}
@@ -456,7 +477,7 @@ func c04(c *Ctx) {
 		for _, f := range closures(gc) { // the test may sit in a predicate literal (slices.IndexFunc)
 			for _, b := range f.Blocks {
 				for _, in := range b.Instrs {
-					if bo, ok := in.(*ssa.BinOp); ok && bo.Op == token.EQL {
+					if bo, ok := in.(*ssa.BinOp); ok && isEqOrNeq(bo) {
 						for _, pr := range [][2]ssa.Value{{bo.X, bo.Y}, {bo.Y, bo.X}} {
 							if s, ok := cfgx.ConstString(pr[1]); ok && s == "Active" && hasSuffixCall(pr[0], ".GetDesiredState") {
 								okActive = true
@@ -659,9 +680,9 @@ func returnsFromLoopHas(loop map[*ssa.BasicBlock]bool, r *ssa.Return) bool {
 func isFatalReturn(fn *ssa.Function, r *ssa.Return) bool {
 	for _, b := range fn.Blocks {
 		for _, in := range b.Instrs {
-			if bo, ok := in.(*ssa.BinOp); ok && bo.Op == token.EQL && hasSuffixCall(bo.X, ".GetSeverity") {
+			if bo, ok := in.(*ssa.BinOp); ok && isEqOrNeq(bo) && hasSuffixCall(bo.X, ".GetSeverity") {
 				if v, ok := cfgx.ConstInt(bo.Y); ok && v == 1 {
-					t, _ := cfgx.CondEdges(bo)
+					t, _ := eqEdges(bo)
 					for _, e := range t {
 						if e.To() == r.Block() {
 							return true
